@@ -82,7 +82,7 @@ func emptinessGuards(in ssa.Instruction) map[string]bool {
 		if !((k == 0 && (op == token.EQL || op == token.LEQ)) || (k == 1 && op == token.LSS)) {
 			continue
 		}
-		if f := directNodeField(call.Call.Args[0]); f != "" {
+		if f := directNodeField(rawArgs(call)[0]); f != "" {
 			out[f] = true
 		}
 	}
@@ -132,7 +132,7 @@ func c02Trie(c *core.Ctx, rule string) {
 		okThis := false
 		for v := range ssax.Backward(mu.Map) {
 			if fa, isFA := v.(*ssa.FieldAddr); isFA && ssax.FieldOwner(fa) == trieNode+".children" {
-				if fa.X == call.Call.Args[0] || ssax.SameExpr(fa.X, call.Call.Args[0]) {
+				if fa.X == rawArgs(call)[0] || ssax.SameExpr(fa.X, rawArgs(call)[0]) {
 					okThis = true
 				}
 			}
@@ -154,7 +154,7 @@ func c02Trie(c *core.Ctx, rule string) {
 		emptied := map[string][]ssa.Instruction{}
 		var prunes []ssax.CallSite
 		for _, d := range dels {
-			m := d.Instr.Common().Args[0]
+			m := rawArgs(d.Instr)[0]
 			isChildren := directNodeField(m) == "children"
 			if isChildren {
 				prunes = append(prunes, d)
@@ -190,7 +190,7 @@ func c02Trie(c *core.Ctx, rule string) {
 				c.Check(guards[k], rule, key+"|"+k+"-empty", ipos(c, pr.Instr), "pruned only when node."+k+" is empty", fmt.Sprintf("a trie node is unlinked although node.%s may still hold other clients' subscriptions", k))
 			}
 			// inside a loop that moves the node, the key must move too
-			mArg, kArg := pr.Instr.Common().Args[0], pr.Instr.Common().Args[1]
+			mArg, kArg := rawArgs(pr.Instr)[0], rawArgs(pr.Instr)[1]
 			if ph := ssax.LoopCarried(mArg); ph != nil && ssax.InLoop(pr.Instr.Block()) {
 				c.Check(ssax.LoopCarried(kArg) != nil, rule, key+"|key-tracks-node", ipos(c, pr.Instr), "prune key changes with the node", "inside a loop that walks up the trie the key removed from the parent's children stays the same: a sibling with the leaf's name is unlinked")
 			}
@@ -350,7 +350,7 @@ func c02(c *core.Ctx) {
 		if !r.Reachable(cs.Instr) {
 			continue
 		}
-		if ssax.AnyIn(ssax.Backward(cs.Instr.Common().Args[3]), ssax.LoadOfField("persistence/subscription/mem.TrieDB.userTrie")) {
+		if ssax.AnyIn(ssax.Backward(rawArgs(cs.Instr)[3]), ssax.LoadOfField("persistence/subscription/mem.TrieDB.userTrie")) {
 			okSys, where = false, cs.Instr
 		}
 	}
